@@ -16,6 +16,10 @@ BOUNDARY = [0, 1, 0x7f, 0x80, 0x8f, 0x90, 0xbf, 0xc0, 0xdf, 0xe0, 0xef, 0xf0, 0x
 BAD_ITEMS = [-1, 256, 2 ** 70, True, 1.5, 144.0, 247.0, 248.0, 1.0, 'a', None, [1]]
 
 
+class MyInt(int):
+    """an integer that is not of type int (like IntEnum / IntFlag members, numpy integers)"""
+
+
 def tok(x):
     """Protocol token of one sequence item."""
     if isinstance(x, bool):
@@ -62,6 +66,9 @@ def impl_decode(seq):
         fail = f'bytes() of the returned message raised {type(e).__name__}'
     if not same and fail is None:
         fail = f'from_bytes({seq!r}) returned {m!r} whose bytes() are {m.bytes()!r}'
+    datapos = list(seq)[1:-1] if m.type == 'sysex' else list(seq)[1:]
+    if fail is None and any(not isinstance(x, int) for x in datapos):
+        fail = f'from_bytes({seq!r}) returned {m!r} although an item in a data position is not an integer'
     if fail is None and all(isinstance(x, int) for x in seq):
         ref = msgs.decode_ref([int(x) for x in seq])
         if ref is None:
@@ -150,6 +157,18 @@ def gen_seqs(ck):
                     s2 = list(base)
                     s2.insert(pos, bad)
                     seqs.append(s2)
+    # a valid string first, then the same string with one data item replaced by an EQUAL value of another type, and by
+    # integers that are not of type int (in and out of range)
+    import fractions
+    import http
+    for base in bases[:9] + [[0x93, 60, 100], [0xb0, 7, 127], [0xf0, 5, 6, 7, 0xf7]]:
+        for pos in range(1, len(base) - (1 if base[0] == 0xf0 else 0)):
+            seqs.append(list(base))
+            for same in (float(base[pos]), fractions.Fraction(base[pos]), MyInt(base[pos]), MyInt(base[pos] + 128), MyInt(255),
+                         http.HTTPStatus.OK, MyInt(-1)):
+                s = list(base)
+                s[pos] = same
+                seqs.append(s)
     # status given as a float (hash-equal to the int)
     for st in [128.0, 144.0, 200.0, 224.0, 240.0, 241.0, 242.0, 243.0, 246.0, 248.0, 255.0, 244.0]:
         for rest in ([], [1], [1, 2], [1, 2, 3], [247], [1, 247], [1.0, 2]):
